@@ -307,7 +307,7 @@ func (e *Engine) evalIdent(env *Env, name string) (TV, error) {
 	}
 	if env.fr != nil {
 		if g, ok := env.fr.ghosts[name]; ok {
-			return TV{g, nil}, nil
+			return TV{g, e.ghostDeclType(env, name)}, nil
 		}
 		// parameters
 		if env.entryParams || env.inOld {
@@ -1078,6 +1078,9 @@ func (e *Engine) evalCall(env *Env, n *ECall) (TV, error) {
 		return tv, err
 	}
 	if tv, handled, err := e.listSpec(env, n.Fun, n.Args); handled {
+		return tv, err
+	}
+	if tv, handled, err := e.ghostSpec(env, n.Fun, n.Args); handled {
 		return tv, err
 	}
 	if n.Fun == "as" && len(n.Args) == 2 {
